@@ -516,12 +516,12 @@ pub fn exec(q: &mut AnyQ, m: &mut Model, st: &Step, cx: &mut Ctx) {
             let stored1 = q.prio_stamp(&KeyId(*k));
             match (cur, changes) {
                 (Some(_), false) => {
-                    expect!(cx, C11, "push_incdec_untouched", stored1 == stored0, "push_{}({},{}) must leave the stored priority untouched (offer not strictly in its direction) but it changed from {:?} to {:?} (value, stamp)", if inc { "increase" } else { "decrease" }, k, p, stored0, stored1);
-                    expect!(cx, C11, "push_incdec_returns_offered", rstamp == Some(*pl), "push_{}({},{}) must return the offered priority itself; it returned one with stamp {:?}, the offered stamp is {}", if inc { "increase" } else { "decrease" }, k, p, rstamp, pl);
+                    expect!(cx, C11 | C03, "push_incdec_untouched", stored1 == stored0, "push_{}({},{}) must leave the stored priority untouched (offer not strictly in its direction) but it changed from {:?} to {:?} (value, stamp)", if inc { "increase" } else { "decrease" }, k, p, stored0, stored1);
+                    expect!(cx, C11 | C03, "push_incdec_returns_offered", rstamp == Some(*pl), "push_{}({},{}) must return the offered priority itself; it returned one with stamp {:?}, the offered stamp is {}", if inc { "increase" } else { "decrease" }, k, p, rstamp, pl);
                 }
                 (Some(_), true) => {
-                    expect!(cx, C11, "push_incdec_returns_old", rstamp == stored0.map(|x| x.1), "push_{}({},{}) must return the previously stored priority (stamp {:?}), got stamp {:?}", if inc { "increase" } else { "decrease" }, k, p, stored0.map(|x| x.1), rstamp);
-                    expect!(cx, C11, "push_incdec_stores_offered", stored1 == Some((*p, *pl)), "push_{}({},{}) must store the offered priority, stored {:?}", if inc { "increase" } else { "decrease" }, k, p, stored1);
+                    expect!(cx, C11 | C03, "push_incdec_returns_old", rstamp == stored0.map(|x| x.1), "push_{}({},{}) must return the previously stored priority (stamp {:?}), got stamp {:?}", if inc { "increase" } else { "decrease" }, k, p, stored0.map(|x| x.1), rstamp);
+                    expect!(cx, C11 | C03, "push_incdec_stores_offered", stored1 == Some((*p, *pl)), "push_{}({},{}) must store the offered priority, stored {:?}", if inc { "increase" } else { "decrease" }, k, p, stored1);
                 }
                 _ => {}
             }
